@@ -447,13 +447,20 @@ func (e *C17) system(ctx *core.Ctx) {
 			}
 		}()
 	}
+	// like the controller runtime's work queue, never two reconciles of the same object at once
+	var inFlight sync.Map
 	rec := func(ctlName string, names func() []string) func(*rand.Rand, int) {
 		return func(rr *rand.Rand, i int) {
 			ns := names()
 			if len(ns) == 0 {
 				return
 			}
-			out := w.Ctl.Reconcile(ctlName, "ns1", ns[rr.Intn(len(ns))], "C")
+			name := ns[rr.Intn(len(ns))]
+			if _, busy := inFlight.LoadOrStore(ctlName+"/"+name, true); busy {
+				return
+			}
+			defer inFlight.Delete(ctlName + "/" + name)
+			out := w.Ctl.Reconcile(ctlName, "ns1", name, "C")
 			if out.Panic != "" {
 				pmu.Lock()
 				panics = append(panics, ctlName+": "+out.Panic+" @ "+out.PanicAt)
